@@ -29,10 +29,14 @@ BracketMods(t, i) ==
                   mult == IF hasMult /\ m1 > c + 2 THEN DigitsVal(t, c + 2, m1 - 1, 0) ELSE 1 IN
               << Mod(TagValue(SubSeq(t, i + 1, c - 1)), mult) >> \o BracketMods(t, m1)
 
+(* the terminal targets are written "N-term" / "C-term" in the ProForma 2.0 text and "N-Term" / "C-Term" in the     *)
+(* library's documentation: one target, whatever the case                                                            *)
+NormTarget(t) == IF Lower(t) = "n-term" THEN "N-Term" ELSE IF Lower(t) = "c-term" THEN "C-Term" ELSE t
 StaticRule(v) ==   \* v = tagged value "s:[..]@A,B"
     LET body == SubSeq(v, 3, Len(v))
         at == IndexOf(body, "@") IN
-    [mods |-> BracketMods(Before(body, at), 1), targets |-> SplitOn(After(body, at), ",")]
+    [mods |-> BracketMods(Before(body, at), 1),
+     targets |-> LET ts == SplitOn(After(body, at), ",") IN [ k \in 1..Len(ts) |-> NormTarget(ts[k]) ]]
 StaticRules(A) == [ k \in 1..Len(A.static) |-> StaticRule(A.static[k].v) ]
 
 CountIn(seq, aa) == Cardinality({ p \in 1..Len(seq) : seq[p] = aa })
